@@ -64,7 +64,13 @@ func randCode(rnd *rand.Rand) string {
 }
 
 func leaf(rnd *rand.Rand) *ErrSpec {
-	switch rnd.Intn(10) {
+	switch rnd.Intn(12) {
+	case 10:
+		code := randCode(rnd)
+		return &ErrSpec{Kind: "own", Code: code, Msg: message(rnd, code), Detail: details[rnd.Intn(len(details))]}
+	case 11:
+		code := randCode(rnd)
+		return &ErrSpec{Kind: "ownboth", Status: randStatus(rnd), Code: code, Msg: message(rnd, code), Detail: details[rnd.Intn(len(details))]}
 	case 0, 1:
 		return &ErrSpec{Kind: "std", Std: stds[rnd.Intn(len(stds))].Name}
 	case 2:
@@ -86,7 +92,7 @@ func randErr(rnd *rand.Rand, depth int) *ErrSpec {
 	if depth == 0 {
 		return leaf(rnd)
 	}
-	switch rnd.Intn(5) {
+	switch rnd.Intn(7) {
 	case 0, 1:
 		return &ErrSpec{Kind: "wrap", Prefix: wrapPrefixes[rnd.Intn(len(wrapPrefixes))], Inner: randErr(rnd, depth-1)}
 	case 2, 3:
@@ -94,6 +100,13 @@ func randErr(rnd *rand.Rand, depth int) *ErrSpec {
 			return &ErrSpec{Kind: "http", Status: randStatus(rnd)}
 		}
 		return &ErrSpec{Kind: "http", Status: randStatus(rnd), Inner: randErr(rnd, depth-1)}
+	case 5:
+		if rnd.Intn(12) == 0 {
+			return &ErrSpec{Kind: "ownhttp", Status: randStatus(rnd)}
+		}
+		return &ErrSpec{Kind: "ownhttp", Status: randStatus(rnd), Inner: randErr(rnd, depth-1)}
+	case 6:
+		return &ErrSpec{Kind: "join", Msg: baseMessages[rnd.Intn(len(baseMessages))], Inner: randErr(rnd, depth-1)}
 	}
 	return leaf(rnd)
 }
@@ -108,6 +121,43 @@ var configProbes = []*ErrSpec{
 	{Kind: "std", Std: "RangeInvalid"},
 	{Kind: "http", Status: 503, Inner: &ErrSpec{Kind: "wire", Code: "SOMECODE", Msg: "try later", Detail: `{"retry":3}`}},
 	{Kind: "plain", Msg: "plain failure"},
+}
+
+// what the "auth" configuration is crossed with: errors the servers answer with status 401 (the
+// only status ociauth's transport looks at), built in every way a 401 comes about ...
+var authProbes = []*ErrSpec{
+	{Kind: "std", Std: "Unauthorized"},
+	{Kind: "wire", Code: "UNAUTHORIZED", Msg: "sign in first", Detail: `{"realm":"c07"}`},
+	{Kind: "http", Status: 401, Inner: &ErrSpec{Kind: "wire", Code: "SOMECODE", Msg: "who are you", Detail: `{"a":1}`}},
+	{Kind: "own", Code: "UNAUTHORIZED", Msg: "own refusal", Detail: `["x"]`},
+}
+
+// ... and, over a few carriers, a bare 401, an uncoded 401 and two controls with another status
+var authProbesFew = []*ErrSpec{
+	{Kind: "http", Status: 401},
+	{Kind: "ownhttp", Status: 401, Inner: &ErrSpec{Kind: "plain", Msg: "plain failure"}},
+	{Kind: "std", Std: "Denied"},
+	{Kind: "http", Status: 407, Inner: &ErrSpec{Kind: "wire", Code: "PROXY", Msg: "proxy auth"}},
+}
+
+// error values of types of the harness's own (own.go) and errors.Join trees
+var ownProbes = []*ErrSpec{
+	{Kind: "own", Code: "POLICY_VIOLATION", Msg: "refused by policy", Detail: `{"hint":"ask","n":3}`},
+	{Kind: "own", Code: "", Msg: "no code at all"},
+	{Kind: "wrap", Prefix: "while checking policy: ", Inner: &ErrSpec{Kind: "own", Code: "DENIED", Msg: "refused", Detail: `{"a":1}`}},
+	{Kind: "http", Status: 451, Inner: &ErrSpec{Kind: "own", Code: "POLICY_VIOLATION", Msg: "refused by policy", Detail: `[1]`}},
+	{Kind: "ownhttp", Status: 404},
+	{Kind: "ownhttp", Status: 451, Inner: &ErrSpec{Kind: "wire", Code: "SOMECODE", Msg: "foo", Detail: `{"k":"v"}`}},
+	{Kind: "ownhttp", Status: 503, Inner: &ErrSpec{Kind: "own", Code: "BUSY", Msg: "try later", Detail: `{"retry":3}`}},
+	{Kind: "ownhttp", Status: 418, Inner: &ErrSpec{Kind: "plain", Msg: "plain failure"}},
+	{Kind: "wrap", Prefix: "context: ", Inner: &ErrSpec{Kind: "ownhttp", Status: 409, Inner: &ErrSpec{Kind: "std", Std: "ManifestInvalid"}}},
+	{Kind: "ownboth", Status: 451, Code: "POLICY_VIOLATION", Msg: "refused by policy", Detail: `{"a":[true]}`},
+	{Kind: "ownboth", Status: 416, Code: "RANGE_INVALID", Msg: "bad range"},
+	{Kind: "ownboth", Status: 500, Code: "BLOB_UNKNOWN", Msg: ""},
+	{Kind: "join", Msg: "first of two", Inner: &ErrSpec{Kind: "std", Std: "BlobUnknown"}},
+	{Kind: "join", Msg: "", Inner: &ErrSpec{Kind: "own", Code: "NAME_UNKNOWN", Msg: "no such repo", Detail: `"d"`}},
+	{Kind: "join", Msg: "cleanup failed too", Inner: &ErrSpec{Kind: "http", Status: 418, Inner: &ErrSpec{Kind: "wire", Code: "TEAPOT", Msg: "short and stout"}}},
+	{Kind: "wrap", Prefix: "outer: ", Inner: &ErrSpec{Kind: "join", Msg: "a", Inner: &ErrSpec{Kind: "ownhttp", Status: 429, Inner: &ErrSpec{Kind: "plain", Msg: "slow down"}}}},
 }
 
 // carrierConfig is a carrier under a chain configuration in which its request sequence exists.
@@ -138,10 +188,32 @@ func generate(rn *runner, cfg *hx.Config) {
 			for _, s := range stds {
 				rn.scenario(scenario{Err: &ErrSpec{Kind: "std", Std: s.Name}, Carrier: cc.cr.Name, Hops: maxHops, Config: cc.cfg}, "std")
 			}
+		} else if cc.cfg == "auth" {
+			for _, e := range authProbes {
+				rn.scenario(scenario{Err: e, Carrier: cc.cr.Name, Hops: maxHops, Config: cc.cfg}, "auth-probe")
+			}
 		} else {
 			for _, e := range configProbes {
 				rn.scenario(scenario{Err: e, Carrier: cc.cr.Name, Hops: maxHops, Config: cc.cfg}, "config-probe")
 			}
+		}
+	}
+	for _, cn := range []string{"GetTag", "ResolveTag", "PushManifest", "Tags", "CommitCommit"} {
+		for _, e := range authProbesFew {
+			rn.scenario(scenario{Err: e, Carrier: cn, Hops: maxHops, Config: "auth"}, "auth-probe")
+		}
+	}
+	// 1b. error values that are not the library's types: every standard code as a value of the
+	//     harness's own Error type, and own / joined shapes over one carrier of every method kind
+	for _, v := range stds {
+		for _, cn := range []string{"GetManifest", "DeleteTag", "Tags"} {
+			rn.scenario(scenario{Err: &ErrSpec{Kind: "own", Code: v.Err.Code(), Msg: "refused by policy", Detail: `{"hint":"ask the owner"}`},
+				Carrier: cn, Hops: maxHops}, "own-type")
+		}
+	}
+	for _, e := range ownProbes {
+		for _, cn := range []string{"GetBlob", "ResolveManifest", "PushManifest", "DeleteBlob", "Referrers", "PatchWrite"} {
+			rn.scenario(scenario{Err: e, Carrier: cn, Hops: maxHops}, "own-type")
 		}
 	}
 	// 2. fixed probes: every wrapper status class over one body carrier, one HEAD carrier, one wrapped carrier
